@@ -33,7 +33,7 @@ ASSUMPTIONS = [
     "callables in replacement tables are called by design and are not `expressions contained in the text`",
 ]
 FLOORS = {"quick": {"plain": 2000, "beautified": 2000, "pretty_field_cases": 800, "packed_operator_seen": 400, "multiline": 100,
-                    "long_text": 100, "safe_fuzz": 1000, "replacements_used": 20}}
+                    "long_text": 100, "safe_fuzz": 1000, "replacements_used": 100, "replacements_used_zero_table": 20}}
 MANIFEST = {
     "text": "Generated wire-decoded messages are printed (plain and beautified), parsed back in safe mode and re-encoded; the "
             "datagram bodies must be identical.  A second generator targets every pretty-printed subfield with payloads that "
@@ -53,7 +53,30 @@ REPLS = {
     "none": {},
     "match": {"AGENT_ID": AGENT, "SESSION_ID": SESSION, "CIRCUIT_CODE": 1234},
     "nomatch": {"AGENT_ID": UUID(int=5), "SESSION_ID": UUID(int=6), "CIRCUIT_CODE": 99},
+    # a table whose entries are all falsy values is still a table of defined replacements
+    "zero": {"AGENT_ID": UUID(int=0), "SESSION_ID": UUID(int=0), "CIRCUIT_CODE": 0},
 }
+
+
+def _force_replaceable(case, repl_name):
+    """make the fields the beautifier abbreviates carry exactly the table's values, so that [[...]] forms are really printed"""
+    repl = REPLS[repl_name]
+    if not repl:
+        return case
+    tmpl = gt.TEMPLATES[case["name"]]
+    for bname, insts in case["blocks"]:
+        tb = tmpl.get_block(bname)
+        for d in insts:
+            for v in tb.variables:
+                if v.name not in d:
+                    continue
+                if bname == "AgentData" and v.name == "AgentID" and v.type == MsgType.MVT_LLUUID:
+                    d[v.name] = repl["AGENT_ID"].hex
+                elif bname == "AgentData" and v.name == "SessionID" and v.type == MsgType.MVT_LLUUID:
+                    d[v.name] = repl["SESSION_ID"].hex
+                elif ("CircuitCode" in v.name or ("Code" in v.name and "Circuit" in bname)) and v.type == MsgType.MVT_U32:
+                    d[v.name] = repl["CIRCUIT_CODE"]
+    return case
 
 BOOST_TEXT = st.one_of(
     st.lists(st.text(st.characters(min_codepoint=0x20, max_codepoint=0x7E), max_size=20), min_size=6, max_size=9).map("\n".join),
@@ -122,8 +145,10 @@ def roundtrip_laws(ctx, case, beautify, repl_name, overrides=None):
         for c in classify(case, text):
             ctx.count(c)
         ctx.count("beautified" if beautify else "plain")
-        if "[[" in text and repl_name == "match":
+        if "[[" in text and repl_name in ("match", "zero"):
             ctx.count("replacements_used")
+            if repl_name == "zero":
+                ctx.count("replacements_used_zero_table")
     mode = "beautify" if beautify else "plain"
     try:
         m2 = HumanMessageSerializer.from_human_string(text, repl, safe=True)
@@ -278,6 +303,9 @@ def shards(tier):
     else:
         for i in range(8):
             sh.append({"kind": "msgs", "names": None, "n": 450})
+    # messages whose fields the beautifier abbreviates through the replacement table
+    sh.append({"kind": "msgs", "names": ["UseCircuitCode", "AddCircuitCode", "CompleteAgentMovement", "AgentUpdate", "ChatFromViewer"],
+               "n": 3000 if th else 300})
     keys = pretty_keys()
     per = max(1, len(keys) // 6)
     for i in range(0, len(keys), per):
@@ -292,7 +320,10 @@ def run_shard(ctx, shard):
         def strat(draw):
             case = draw(gt.message_case(names=shard["names"], finite=True, with_header=True, omit_trailing=True))
             case = _boost(draw, _prep(case))
-            return {"case": case, "beautify": draw(st.booleans()), "repl": draw(st.sampled_from(["none", "match", "nomatch"]))}
+            repl = draw(st.sampled_from(["none", "match", "nomatch", "zero"]))
+            if repl in ("match", "zero") and draw(st.booleans()):
+                case = _force_replaceable(case, repl)
+            return {"case": case, "beautify": draw(st.booleans()), "repl": repl}
 
         def body(c):
             case = c["case"]
